@@ -192,6 +192,10 @@ class SpecMixin:
             return dom(to_ref(m), *keys)
         if nm == 'isinst':
             return self.isinstance_name(self.ev(node.args[0], st, fr), node.args[1].value, st)
+        if nm in ('idiv', 'imod'):
+            a = to_int(self.ev(node.args[0], st, fr))
+            b = to_int(self.ev(node.args[1], st, fr))
+            return a / b if nm == 'idiv' else a % b
         if nm == 'cint':
             return self.coerce_ctype(self.ev(node.args[0], st, fr), 'int')
         if nm == 'to_int':
